@@ -61,7 +61,7 @@ CHECKS = {
          "The spin watchdog reads a real clock (8 s).",
          "deterministic simulation: disconnect injection at every session phase over real transports, spin watchdog"),
  "C11": ("I-sim", "exploration", "DESIGN.md §5 C11",
-         "The real RpslEvaluator over the vendored irrc pipeline whose socket is an in-memory stream with seeded short reads and partial writes, against FakeIrrd over a generated database (nested/cyclic/hierarchical as-sets, v4-only/v6-only/routeless ASes, duplicates, nested route-sets, filter-sets; thorough: >1000 pipelined queries). Oracle: equality with rpsl's evaluator over a resolver that reads the database directly.",
+         "The real RpslEvaluator over the vendored irrc pipeline whose socket is an in-memory stream with seeded short reads and partial writes, against FakeIrrd over a generated database (nested/cyclic/hierarchical as-sets, v4-only/v6-only/routeless ASes, duplicates, nested route-sets, filter-sets; thorough: >1000 pipelined queries). One run in 16 evaluates through the bgpfu executable (child process) over a loopback TCP connection to FakeIrrd and compares the printed ranges. Oracle: equality with rpsl's evaluator over a resolver that reads the database directly.",
          "rpsl expression semantics and generic-ip set algebra are trusted (both sides). NOT is only generated over ANY and short IPv4 literal sets: generic-ip's complement is exponential in prefix length (seconds for a /24, unbounded for IPv6). The agent half is checked by C01.",
          "deterministic simulation: IRR protocol model with seeded segmentation, reference evaluation"),
  "C15": ("A-sim", "exploration", "DESIGN.md §5 C15",
@@ -77,7 +77,7 @@ CHECKS = {
          "Same trusted base as C11.",
          "deterministic simulation: evaluation histories with injected IRR errors on one connection"),
  "C19": ("A-sim", "exploration", "DESIGN.md §5 C19",
-         "The real Loop::start on a paused clock (periods 1 s .. 1 day), scripted outcomes per connection attempt (success / connect failure / rpc-error or disconnect at a seeded request, job durations 0..3 periods), SIGHUP and SIGINT/SIGTERM raised with libc::raise at seeded virtual instants. Oracle over the timeline of attempts and observed job ends: period after success, 60 s first retry, monotone growth up to max(60 s, period), never zero without SIGHUP, SIGHUP while waiting => run at that instant, terminating signal while waiting => clean exit at that instant.",
+         "The real Loop::start on a paused clock (periods 1 s .. 1 day), scripted outcomes per connection attempt (success / connect failure / rpc-error or disconnect at a seeded request, job durations 0..3 periods), SIGHUP and SIGINT/SIGTERM raised with libc::raise at seeded virtual instants. Oracle over the timeline of attempts and observed job ends: period after success, 60 s first retry, monotone growth up to max(60 s, period), never zero without SIGHUP, SIGHUP while waiting => run at that instant, terminating signal while waiting => clean exit at that instant. Enumerated part: the agent executable as a child process (real clock, real signals, closed port): -f 0 makes one attempt and exits with failure, a daemon announces 60 s first and then non-shrinking delays bounded by max(60 s, period) for jobs started by SIGHUP, and exits 0 on SIGTERM / SIGINT.",
          "Job end is observed at the transport (refusal, first negative reply / EOF, positive close-session reply).",
          "deterministic simulation: virtual-time timelines with scripted outcomes and real signals"),
  "C20": ("R-sim", "exploration", "DESIGN.md §5 C20",
